@@ -131,17 +131,17 @@ theorem tbFold_exact (S : Schema) (F T : Nat) (sep : List Nat) (lt : Node → Li
 /-! ### closed form for a list of blocks that hold only text, whole range -/
 
 /-- the units of the text children of a child list -/
-def textUnits : List Node → List Nat
+def kidsTextUnits : List Node → List Nat
   | [] => []
-  | .text s _ :: r => s ++ textUnits r
-  | _ :: r => textUnits r
+  | .text s _ :: r => s ++ kidsTextUnits r
+  | _ :: r => kidsTextUnits r
 
 /-- the text of the blocks, each non-empty block except the last block followed by one separator -/
 def joinBlocks (sep : List Nat) : List Node → List Nat
   | [] => []
-  | [b] => textUnits b.kids
+  | [b] => kidsTextUnits b.kids
   | b :: b' :: r =>
-    textUnits b.kids ++ (if textUnits b.kids = [] then [] else sep) ++ joinBlocks sep (b' :: r)
+    kidsTextUnits b.kids ++ (if kidsTextUnits b.kids = [] then [] else sep) ++ joinBlocks sep (b' :: r)
 
 /-- every node of the list is a block element whose children are non-empty text nodes -/
 def TextBlocks (S : Schema) (blocks : List Node) : Prop :=
@@ -151,25 +151,25 @@ def TextBlocks (S : Schema) (blocks : List Node) : Prop :=
 theorem sepSpec_texts (S : Schema) (sep : List Nat) (lt : Node → List Nat) :
     ∀ (ks : List Node), (∀ c ∈ ks, ∃ s mk, c = Node.text s mk ∧ s ≠ []) →
     ∀ (t : Nat) (b : Bool), fsize ks ≤ t →
-    sepSpec S sep lt ks 0 t b = (textUnits ks, if ks = [] then b else sep.isEmpty)
-  | [], _, t, b, _ => by simp [sepSpec, textUnits]
+    sepSpec S sep lt ks 0 t b = (kidsTextUnits ks, if ks = [] then b else sep.isEmpty)
+  | [], _, t, b, _ => by simp [sepSpec, kidsTextUnits]
   | c :: r, hks, t, b, ht => by
     obtain ⟨s, mk, rfl, hs⟩ := hks c (by simp)
     have hl : 0 < s.length := List.length_pos_iff.mpr hs
     simp only [fsize_cons, Node.size_text] at ht
     rw [sepSpec_cons _ _ _ _ _ _ _ _ (by omega)]
     have ih := sepSpec_texts S sep lt r (fun c hc => hks c (by simp [hc])) (t - s.length) sep.isEmpty (by omega)
-    simp only [Node.size_text, hl, if_true, Nat.zero_sub, List.drop_zero, ih, textUnits]
+    simp only [Node.size_text, hl, if_true, Nat.zero_sub, List.drop_zero, ih, kidsTextUnits]
     rw [List.take_of_length_le (by omega)]
     simp
 
-theorem textUnits_ne_nil (ks : List Node) (hks : ∀ c ∈ ks, ∃ s mk, c = Node.text s mk ∧ s ≠ [])
-    (h : ks ≠ []) : textUnits ks ≠ [] := by
+theorem kidsTextUnits_ne_nil (ks : List Node) (hks : ∀ c ∈ ks, ∃ s mk, c = Node.text s mk ∧ s ≠ [])
+    (h : ks ≠ []) : kidsTextUnits ks ≠ [] := by
   cases ks with
   | nil => exact (h rfl).elim
   | cons c r =>
     obtain ⟨s, mk, rfl, hs⟩ := hks c (by simp)
-    simp [textUnits, hs]
+    simp [kidsTextUnits, hs]
 
 theorem sepSpec_blocks (S : Schema) (sep : List Nat) (lt : Node → List Nat) :
     ∀ (blocks : List Node), TextBlocks S blocks → ∀ (t : Nat) (b : Bool), fsize blocks ≤ t →
@@ -192,8 +192,8 @@ theorem sepSpec_blocks (S : Schema) (sep : List Nat) (lt : Node → List Nat) :
       simp only [joinBlocks, Node.kids, List.isEmpty_cons, Bool.not_false, Bool.and_true,
         List.append_assoc, List.append_cancel_left_eq]
       by_cases hk : ks = []
-      · subst hk; cases b <;> simp [textUnits]
-      · have := textUnits_ne_nil ks hks hk
+      · subst hk; cases b <;> simp [kidsTextUnits]
+      · have := kidsTextUnits_ne_nil ks hks hk
         simp only [hk, if_false, this]
         cases hse : sep.isEmpty with
         | true => simp [List.isEmpty_iff.mp hse]
